@@ -1692,10 +1692,11 @@ def intChanged (dyn : List Column) (old : Row) (r : ReplyRow) : Bool :=
 def decision (w : World) (flags : Nat) (tab : Table) (old : Row) (r : ReplyRow) : Option Bool :=
   let luChanged := replyInt r "last_update" != old.int "last_update"
   let lcChanged := replyInt r "last_check" != old.int "last_check"
-  if hasLU w flags tab && hasLC tab then (if luChanged || lcChanged then some true else none)
-  else if hasLU w flags tab then (if luChanged then some true else none)
+  let ic := intChanged (dynamicCols w.schema flags tab.name) old r
+  if hasLU w flags tab && hasLC tab then (if luChanged || lcChanged || ic then some true else none)
+  else if hasLU w flags tab then (if luChanged || ic then some true else none)
   else if !hasLC tab then some true
-  else some (lcChanged || intChanged (dynamicCols w.schema flags tab.name) old r)
+  else some (lcChanged || ic)
 
 /-- the cached row after a reply row addressed it -/
 def rowAfter (w : World) (flags : Nat) (tab : Table) (old : Row) (r : ReplyRow) : Row :=
@@ -1747,10 +1748,20 @@ theorem applyDelta_eq (w : World) (flags : Nat) (tab : Table) (cached : List Row
         | some old =>
           match (if ((flags &&& flagBit w.schema "HasLastUpdateColumn" != 0 && (tab.col? "last_update").isSome) &&
                 (tab.col? "last_check").isSome) = true then
-              if (replyInt x.2 "last_update" != old.int "last_update" || replyInt x.2 "last_check" != old.int "last_check") = true
+              if (replyInt x.2 "last_update" != old.int "last_update" || replyInt x.2 "last_check" != old.int "last_check" ||
+                ((dynamicCols w.schema flags tab.name).any fun col =>
+                match col.dtype with
+                | .int => checkInt8 (replyInt x.2 col.name) != old.int col.name
+                | .int64 => replyInt x.2 col.name != old.int col.name
+                | _ => false)) = true
               then some true else none
             else if (flags &&& flagBit w.schema "HasLastUpdateColumn" != 0 && (tab.col? "last_update").isSome) = true then
-              if (replyInt x.2 "last_update" != old.int "last_update") = true then some true else none
+              if (replyInt x.2 "last_update" != old.int "last_update" ||
+                ((dynamicCols w.schema flags tab.name).any fun col =>
+                match col.dtype with
+                | .int => checkInt8 (replyInt x.2 col.name) != old.int col.name
+                | .int64 => replyInt x.2 col.name != old.int col.name
+                | _ => false)) = true then some true else none
             else if (!(tab.col? "last_check").isSome) = true then some true
             else some (replyInt x.2 "last_check" != old.int "last_check" ||
               (dynamicCols w.schema flags tab.name).any fun col =>
@@ -1780,10 +1791,20 @@ theorem applyDelta_eq (w : World) (flags : Nat) (tab : Table) (cached : List Row
         | some old =>
           match (if ((flags &&& flagBit w.schema "HasLastUpdateColumn" != 0 && (tab.col? "last_update").isSome) &&
                 (tab.col? "last_check").isSome) = true then
-              if (replyInt x.2 "last_update" != old.int "last_update" || replyInt x.2 "last_check" != old.int "last_check") = true
+              if (replyInt x.2 "last_update" != old.int "last_update" || replyInt x.2 "last_check" != old.int "last_check" ||
+                ((dynamicCols w.schema flags tab.name).any fun col =>
+                match col.dtype with
+                | .int => checkInt8 (replyInt x.2 col.name) != old.int col.name
+                | .int64 => replyInt x.2 col.name != old.int col.name
+                | _ => false)) = true
               then some true else none
             else if (flags &&& flagBit w.schema "HasLastUpdateColumn" != 0 && (tab.col? "last_update").isSome) = true then
-              if (replyInt x.2 "last_update" != old.int "last_update") = true then some true else none
+              if (replyInt x.2 "last_update" != old.int "last_update" ||
+                ((dynamicCols w.schema flags tab.name).any fun col =>
+                match col.dtype with
+                | .int => checkInt8 (replyInt x.2 col.name) != old.int col.name
+                | .int64 => replyInt x.2 col.name != old.int col.name
+                | _ => false)) = true then some true else none
             else if (!(tab.col? "last_check").isSome) = true then some true
             else some (replyInt x.2 "last_check" != old.int "last_check" ||
               (dynamicCols w.schema flags tab.name).any fun col =>
